@@ -104,5 +104,69 @@ func allProps() []*propInfo {
 				{ID: "C06.5", Doc: "[atoms] nack candidates are outstanding", Run: ruleC06_5},
 			},
 		},
+		{
+			ID: "C12",
+			Explanation: "Static necessary conditions of 'one live resource per name; Get/List show exactly the live set': " +
+				"C12.1 every lookup of a topic/subscription by name also requires deleted_at IS NULL (module-wide); C12.2 create checks for a live row of the name (→ ErrExists), maps a unique violation on save to ErrExists, and the handlers answer AlreadyExists for it; " +
+				"C12.3 soft delete is {deleted_at:set, live:clear} together, by the three soft-deleters only; nobody clears deleted_at or re-sets live; hard deletes only by the prune jobs; " +
+				"C12.4 unique (name, live) on topics and subscriptions and unique name on snapshots in the ent schema and in the SQL migrations; " +
+				"C12.5 each List handler's prefix kind equals its entity's name-validator kind, keyset pagination is consistent (ORDER BY id ASC, id > token only when a token is given, LIMIT pageSize, next token = last SCANNED row iff a full page was scanned); " +
+				"C12.6 project scoping is case-exact (every listed row passes strings.HasPrefix(row.Name, prefix) over the same prefix, or the SQL atom is case-exact). " +
+				"NOT decided: races under PostgreSQL isolation levels, histories, 'inherits no backlog' beyond C12.3.",
+			Assumptions: []string{k1Assumption, "SQLite evaluates LIKE case-insensitively, PostgreSQL case-sensitively (documented behaviour)"},
+			Rules: []ruleFn{
+				{ID: "C12.1", Doc: "[atoms] live-only name resolution", Run: ruleC12_1},
+				{ID: "C12.2", Doc: "[dom] create: exists check, duplicate-key mapping, AlreadyExists", Run: ruleC12_2},
+				{ID: "C12.3", Doc: "[atoms][who] soft delete discipline", Run: ruleC12_3},
+				{ID: "C12.4", Doc: "[tab] unique indexes", Run: ruleC12_4},
+				{ID: "C12.5", Doc: "[tab][atoms] List siblings agree; keyset pagination; case-exact scoping (C12.6)", Run: ruleC12_5_6},
+			},
+		},
+		{
+			ID: "C13",
+			Explanation: "Static necessary conditions of 'seek restores exactly the requested backlog': " +
+				"C13.1 seek-to-time = ack{published_at <= T} / re-open{published_at > T ∧ completed} over the same T = the requested time, both scoped to the resolved subscription, no further restricting atom, re-open sets {completed_at:clear, expires_at:=now+MessageTTL, attempt_at:=now}; " +
+				"C13.2 seek-to-snapshot = ack{< B} ∪ ack{IN L} / re-open{>= B ∧ NOT IN L ∧ completed} over the resolved snapshot's watermark B and id list L, every update scoped to the resolved subscription, same re-open mutators; " +
+				"C13.3 snapshot contents: B = published_at of the oldest outstanding delivery of the subscription, L = messages of the subscription's topic at/after B whose delivery on THIS subscription is completed (or absent). " +
+				"NOT decided: the set equality over histories; join semantics of the id-list query.",
+			Assumptions: []string{k1Assumption},
+			Rules: []ruleFn{
+				{ID: "C13.1", Doc: "[atoms] seek-to-time is a partition", Run: ruleC13_1},
+				{ID: "C13.2", Doc: "[atoms] seek-to-snapshot", Run: ruleC13_2},
+				{ID: "C13.3", Doc: "[dep] snapshot contents agree", Run: ruleC13_3},
+			},
+		},
+		{
+			ID: "C14",
+			Explanation: "Static necessary conditions of 'retention, expiry and delay follow the configured durations': " +
+				"C14.1 a delivery is created with expires_at = now + s.MessageTTL, attempt_at = now + s.DeliveryDelay, published_at = now (idiom-bound: time.Time.Add of a conversion of the field); C14.2 the pull requires expires_at > now; " +
+				"C14.3 every pull restarts the subscription clock: a refresh (expires_at = now + ttl) in its own committed transaction precedes the wait loop, and applyResults refreshes on every successful path; " +
+				"C14.4 the expiry sweep selects exactly expires_at < now (live) rows and soft-deletes exactly those; C14.5 the delay injector rejects negative delays before storing. " +
+				"Revived messages get fresh retention: C13.1/C13.2 re-open mutators (evaluated under C13). NOT decided: exactness of durations, timing around deadlines, the interval codec.",
+			Assumptions: []string{k1Assumption},
+			Rules: []ruleFn{
+				{ID: "C14.1", Doc: "[dep] creation timestamps", Run: ruleC14_1},
+				{ID: "C14.2", Doc: "[atoms] not delivered after retention", Run: ruleC14_2},
+				{ID: "C14.3", Doc: "[dom] every pull restarts the subscription clock", Run: ruleC14_3},
+				{ID: "C14.4", Doc: "[atoms] expiry sweep", Run: ruleC14_4},
+				{ID: "C14.5", Doc: "[K6] negative delay rejected", Run: ruleC14_5},
+				{ID: "C13.1", Doc: "[atoms] (shared) seek-to-time re-open gives fresh retention", Run: ruleC13_1},
+				{ID: "C13.2", Doc: "[atoms] (shared) seek-to-snapshot re-open gives fresh retention", Run: ruleC13_2},
+			},
+		},
+		{
+			ID: "C15",
+			Explanation: "Static necessary conditions of 'pruning is invisible and converges': " +
+				"C15.1 each of the six prune jobs deletes exactly `id IN result` of a select whose atoms are exactly its justification (completed / expired / deleted-subscription deliveries; parentless messages, subscriptions, topics with NOT EXISTS children), with the age threshold computed as time.Now() − MinAge inside Execute; " +
+				"C15.2 referential actions: every foreign key is NO ACTION except not_before_id and dead_letter_topic_id (SET NULL), no CASCADE, in the ent schema and the SQL migrations; " +
+				"C15.3 every maintenance action constructor is registered as a background service, and the dead-letter sweep is registered. " +
+				"NOT decided: metamorphic equality of traces, convergence at the fixpoint.",
+			Assumptions: []string{k1Assumption},
+			Rules: []ruleFn{
+				{ID: "C15.1", Doc: "[atoms] exact selection per job; threshold", Run: ruleC15_1},
+				{ID: "C15.2", Doc: "[tab] referential actions", Run: ruleC15_2},
+				{ID: "C15.3", Doc: "[tab] registry", Run: ruleC15_3},
+			},
+		},
 	}
 }
